@@ -31,6 +31,19 @@ ASSUMPTIONS = [
     "glart (GitLab artifacts) open() is exercised with its HTTP session stubbed; its __init__ needs a network and is bypassed",
     "symlinks inside the handler root are not followed by the lexical theorem; the realpath monitor covers the scratch trees used here",
 ]
+DRIVERS = ["Path"]
+MANIFEST = dict(
+    text=("Lean theorems over a model of PurePosixPath construction, normalize_pure_path, each handler's path "
+          "composition and percent-quoting: for every subdir string and every file name the accessed parts start "
+          "with the normalised subdir and contain no '..', '.', empty or slash-bearing component; quoting is "
+          "invertible and emits no '?', '#', space (nor '/' with safe=''). The model is tied to /repo by an exhaustive "
+          "differential run over a component alphabet against pathlib, urllib and the real handlers with their backing "
+          "stores intercepted; an independent lexical+realpath containment monitor is the failing-input search."),
+    design_ref="§6 C14",
+    note=("Trusted: Lean kernel; pathlib/posixpath/urllib as oracle; interception shims in harness/props/c14.py; "
+          "GitLab-artifacts __init__ bypassed (needs network); symlink behaviour only via realpath on scratch trees."),
+    technique="Lean 4 proof (induction over path components / bytes) + exhaustive differential correspondence with pathlib and the real handlers",
+)
 TRUSTED = ["C14: UTF-8 encoding of file names is done by CPython resp. Lean's String.toUTF8 (not modelled)"]
 
 ALPHA = ["..", ".", "", "a", "b c", "%41", "é", "\\", "x.y"]
@@ -376,7 +389,7 @@ def run(ctx: Ctx) -> Outcome:
 
     # ---- differential comparison
     if os.environ.get("VERIF_NO_MODEL") != "1":
-        answers = common.model(req)
+        answers = common.model(req, driver="Path")
         for (stream, case), iv, ans in zip(meta, impl, answers):
             mv = ans.get("ok", {"err": ans.get("err")})
             if stream == "http.%s" and iv is None:
